@@ -176,6 +176,10 @@ static int call_one(const char* f, int fast, args_t* a, long long* ri, unsigned 
 	CASE(zzSub, 4, 'u', *ru = zzSub(WM(0), W(1), W(2), N(3)))
 	CASE(zzSub2, 3, 'u', *ru = zzSub2(WM(0), W(1), N(2)))
 	CASE(zzSubW, 4, 'u', *ru = zzSubW(WM(0), W(1), N(2), (word)a->v[3]))
+	CASE(zzAdd, 4, 'u', *ru = zzAdd(WM(0), W(1), W(2), N(3)))
+	CASE(zzAdd2, 3, 'u', *ru = zzAdd2(WM(0), W(1), N(2)))
+	CASE(zzAddW, 4, 'u', *ru = zzAddW(WM(0), W(1), N(2), (word)a->v[3]))
+	CASE(zzModW2, 3, 'u', *ru = zzModW2(W(0), N(1), (word)a->v[2]))
 	CASE(zzMul, 6, 'v', zzMul(WM(0), W(1), N(2), W(3), N(4), P(5)))
 	CASE(u16Weight, 1, 'u', *ru = u16Weight((u16)a->v[0]))
 	CASE(u32Weight, 1, 'u', *ru = u32Weight((u32)a->v[0]))
@@ -401,6 +405,52 @@ static void do_kwp(int wrap, int argc, char** argv)
 	hex_free(key, lk); hex_free(hdr, lh); hex_free(src, ls);
 }
 
+/* prim <name> <key> <iv> <data>   symmetric primitives with key and data secret (mechanism C);
+   prints the result octets.  name: ecb cbc cfb ctr dwp che hmac belthash bash256 bash384 bash512 krp */
+static void do_prim(int argc, char** argv)
+{
+	size_t lk, liv, ld;
+	unsigned char *key, *iv, *data, *out, *out2;
+	octet mac[8], h[64];
+	const char* k;
+	err_t e = 0;
+	if (argc != 4) { printf("bad-op"); return; }
+	k = argv[0];
+	key = hex_arg(argv[1], &lk); iv = hex_arg(argv[2], &liv); data = hex_arg(argv[3], &ld);
+	out = (unsigned char*)malloc(ld + 64); out2 = (unsigned char*)malloc(ld + 64);
+	memset(out, 0, ld + 64); memset(out2, 0, ld + 64); memset(mac, 0, 8); memset(h, 0, 64);
+	UD(key, lk); UD(data, ld);
+	if (!strcmp(k, "ecb")) { e = beltECBEncr(out, data, ld, key, lk); if (!e) e = beltECBDecr(out2, out, ld, key, lk); }
+	else if (!strcmp(k, "cbc")) { e = beltCBCEncr(out, data, ld, key, lk, iv); if (!e) e = beltCBCDecr(out2, out, ld, key, lk, iv); }
+	else if (!strcmp(k, "cfb")) { e = beltCFBEncr(out, data, ld, key, lk, iv); if (!e) e = beltCFBDecr(out2, out, ld, key, lk, iv); }
+	else if (!strcmp(k, "ctr")) { e = beltCTR(out, data, ld, key, lk, iv); memcpy(out2, data, ld); }
+	else if (!strcmp(k, "dwp"))
+	{
+		e = beltDWPWrap(out, mac, data, ld / 2, data + ld / 2, ld - ld / 2, key, lk, iv);
+		if (!e) e = beltDWPUnwrap(out2, out, ld / 2, data + ld / 2, ld - ld / 2, mac, key, lk, iv);
+		memcpy(out2 + ld / 2, data + ld / 2, ld - ld / 2);
+	}
+	else if (!strcmp(k, "che"))
+	{
+		e = beltCHEWrap(out, mac, data, ld / 2, data + ld / 2, ld - ld / 2, key, lk, iv);
+		if (!e) e = beltCHEUnwrap(out2, out, ld / 2, data + ld / 2, ld - ld / 2, mac, key, lk, iv);
+		memcpy(out2 + ld / 2, data + ld / 2, ld - ld / 2);
+	}
+	else if (!strcmp(k, "hmac")) { e = beltHMAC(h, data, ld, key, lk); memcpy(out2, data, ld); }
+	else if (!strcmp(k, "belthash")) { e = beltHash(h, data, ld); memcpy(out2, data, ld); }
+	else if (!strcmp(k, "bash256")) { e = bashHash(h, 128, data, ld); memcpy(out2, data, ld); }
+	else if (!strcmp(k, "bash384")) { e = bashHash(h, 192, data, ld); memcpy(out2, data, ld); }
+	else if (!strcmp(k, "bash512")) { e = bashHash(h, 256, data, ld); memcpy(out2, data, ld); }
+	else if (!strcmp(k, "krp") && liv == 16 && ld >= 12) { e = beltKRP(out, 16, key, lk, data, iv); memcpy(out2, data, ld); }
+	else { printf("bad-op"); return; }
+	DF(&e, sizeof e); DF(out, ld + 64); DF(out2, ld + 64); DF(mac, 8); DF(h, 64); DF(key, lk); DF(data, ld);
+	/* decrypt(encrypt(x)) == x is checked here so that the line is also a functional test */
+	printf("%u %d ", (unsigned)e, e ? 0 : (memcmp(out2, data, ld) == 0));
+	put_hex(out, ld < 32 ? ld : 32); fputc(' ', stdout); put_hex(mac, 8); fputc(' ', stdout); put_hex(h, 32);
+	free(out); free(out2);
+	hex_free(key, lk); hex_free(iv, liv); hex_free(data, ld);
+}
+
 static void handle(int argc, char** argv)
 {
 	if (taint < 0)
@@ -423,5 +473,6 @@ static void handle(int argc, char** argv)
 	else if (!strcmp(argv[0], "stepv")) do_verify(1, argc - 1, argv + 1);
 	else if (!strcmp(argv[0], "kwp")) do_kwp(0, argc - 1, argv + 1);
 	else if (!strcmp(argv[0], "kwpw")) do_kwp(1, argc - 1, argv + 1);
+	else if (!strcmp(argv[0], "prim")) do_prim(argc - 1, argv + 1);
 	else do_cmp(argc, argv);
 }
